@@ -230,20 +230,24 @@ inductive Res where
   | error : Err → Res
   deriving DecidableEq, Repr
 
+/-- the list `[*self.paths, *reference.paths(self.paths)]` in `pop()` order -/
+def todoPaths (bank : Bank) (r : Ref) (order : List Mod) : List PathE :=
+  let base := arrange bank.paths order
+  (base ++ refPaths r base).reverse
+
+/-- `return self.provider[reference]` after the loop; KeyError → MissingError in `Meta.__getitem__` -/
+def finish (iface : ClassId) (r : Ref) : St × Option Err → St × Res
+  | (st', some e) => (st', .error e)
+  | (st', none) =>
+    match lookupRef r (getBank iface st'.banks).provider with
+    | some c => (st', .ok c)
+    | none => (st', .error .missing)
+
 /-- `Meta.__getitem__` → `Bank.get` -/
 def get (w : World) (st : St) (iface : ClassId) (r : Ref) (order : List Mod) : St × Res :=
-  let bank := getBank iface st.banks
-  match lookupRef r bank.provider with
+  match lookupRef r (getBank iface st.banks).provider with
   | some c => (st, .ok c)
-  | none =>
-    let base := arrange bank.paths order
-    let todo := (base ++ refPaths r base).reverse
-    match getLoop w iface r st todo with
-    | (st', some e) => (st', .error e)
-    | (st', none) =>
-      match lookupRef r (getBank iface st'.banks).provider with
-      | some c => (st', .ok c)
-      | none => (st', .error .missing)
+  | none => finish iface r (getLoop w iface r st (todoPaths (getBank iface st.banks) r order))
 
 /-- registering a list of classes into one bank (the single-bank view used by the order theorems) -/
 def addAll (b : Bank) : List ClassDef → Except Err Bank
